@@ -220,6 +220,10 @@ func Cliques() {
 		}
 		count[m]++
 	}
+	if n >= 1 {
+		// the empty vertex set is a clique but never a maximal one in a graph with vertices
+		vx.Assert(count[0] == 0, "nothing but maximal cliques is returned")
+	}
 	for m := 1; m < 1<<n; m++ {
 		maximal := isClique(m)
 		if maximal {
